@@ -4,7 +4,9 @@
 (* one call of the real dadi (Spectrum.from_phi, from_phi_inbreeding,      *)
 (* Numerics.BetaBinomConvolution, or a short composition with project /    *)
 (* marginalize) with its exact inputs and the raw observed result.  The    *)
-(* verdict for a record is the set of violated clauses.                    *)
+(* verdict for a record is the set of violated clauses.  Records that      *)
+(* carry encodings of the argument objects before / after the call are     *)
+(* also judged for leaving the caller's objects unchanged (FArgs).         *)
 (***************************************************************************)
 EXTENDS Sampling, TLC, Json, IOUtils
 CONSTANTS Tau,       \* fibre-relative tolerance of the float-evaluated linear maps
@@ -153,7 +155,19 @@ FInbLimit(r) ==
                                   /\ RLeq(gap(r.out.s2, r.out.t), bound(r.in.F2))) \cup
              F("InbreedingLimitShrinks", RLt(r.in.F2, r.in.F1) /\ RLeq(gap(r.out.s2, r.out.t), RAdd(gap(r.out.s1, r.out.t), RMul(TauInb, mass))))
 
-Failed(r) ==
+\* ---- state / aliasing: sampling is a function of the VALUES of its arguments ----
+\* r.out.args.before / .after: bit-exact encodings <<[name, kind, dtype, sh, v]>> of the argument objects (density, grid
+\* container and grids, sample sizes, admix_props / Fs / ploidys containers) as the caller wrote them and as they are
+\* after the call.  Records with in.nth = 2, 3 carry the second / third of consecutive calls on the same density object
+\* (same / different sample sizes); the clauses above judge them against r.in.phi, the density as the caller wrote it.
+FArgs(r) ==
+    IF "args" \notin DOMAIN r.out THEN {}
+    ELSE LET b == r.out.args.before
+             a == r.out.args.after
+         IN  IF Len(a) # Len(b) THEN {"ArgumentsUnchangedBySampling"}
+             ELSE {"ArgumentsUnchangedBySampling[" \o b[k].name \o "]" : k \in {j \in 1..Len(b) : a[j] # b[j]}}
+
+FOp(r) ==
     CASE r.op = "from_phi"            -> FFromPhi(r)
       [] r.op = "from_phi_inbreeding" -> FInbreeding(r)
       [] r.op = "betabinom"           -> FBetaBinom(r)
@@ -163,6 +177,7 @@ Failed(r) ==
       [] r.op = "refine"              -> FRefine(r)
       [] r.op = "inb_limit"           -> FInbLimit(r)
       [] OTHER                        -> {"UnknownOp"}
+Failed(r) == FOp(r) \cup FArgs(r)
 
 Init == i = 0
 Next == /\ i < Len(Trace)
